@@ -13,4 +13,5 @@ INVARIANT NoContractViolation
 INVARIANT BoundedTasks
 INVARIANT AllClosed
 INVARIANT NoOrphan
+INVARIANT AlwaysTrying
 CHECK_DEADLOCK FALSE
